@@ -6,6 +6,7 @@ Over any linearly ordered field (bounds) / any field of characteristic zero (mea
 -/
 import TrimeshVerif.Proofs.Scene
 import TrimeshVerif.Proofs.GeomRat
+import TrimeshVerif.Proofs.SceneAppend
 namespace TV.C10
 open TV.Mat3 TV.Affine TV.Scene
 
@@ -75,5 +76,39 @@ theorem C10_rat_lower_is_bound (p : TV.GeomRat.V) (ps : List TV.GeomRat.V) :
     ∀ q ∈ p :: ps, (lowerR p ps).1 ≤ q.1 ∧ (lowerR p ps).2.1 ≤ q.2.1 ∧ (lowerR p ps).2.2 ≤ q.2.2 :=
   rat_lower_is_bound p ps
 end rat
+
+
+/-! ### append_scenes: node renaming -/
+
+section append
+open TV.SceneAppend
+variable {α : Type} [DecidableEq α]
+
+/-- **appending never merges nodes of different scenes**: whatever the scenes, the `common` nodes and the names in
+    use before, if the identifiers drawn are new (`gen` injective, never a node name of a scene, never a name already
+    in use) then the renamed node names of two different scenes meet only in `common`, and no renamed name collides
+    with a name in use before unless it is common -/
+theorem C10_append_no_merge (gen : Nat → α) (hgen : ∀ a b, gen a = gen b → a = b) (common : List α)
+    (ss : List (List α)) (consumed : List α) (ctr : Nat)
+    (h1 : ∀ c, ctr ≤ c → gen c ∉ consumed) (h2 : ∀ c, ∀ s ∈ ss, gen c ∉ s) :
+    (∀ A ∈ appendAll gen common consumed ctr ss, ∀ x ∈ A, x ∈ consumed → x ∈ common) ∧
+    (appendAll gen common consumed ctr ss).Pairwise (fun A B => ∀ x ∈ A, x ∈ B → x ∈ common) :=
+  appendAll_disjoint gen hgen common ss consumed ctr h1 h2
+
+/-- **inside one scene the renaming is a one-to-one function of the node name**: two occurrences get the same new
+    name exactly when they are the same node (so the appended copy of the scene has the same graph) -/
+theorem C10_append_scene_injective (gen : Nat → α) (hgen : ∀ a b, gen a = gen b → a = b) (common consumed : List α)
+    (ctr : Nat) (ns : List α) (hnames : ∀ c, gen c ∉ ns) (i j : Nat) (n n' o o' : α)
+    (hi : ns[i]? = some n) (hj : ns[j]? = some n')
+    (ho : (remapAll gen common consumed ⟨[], [], ctr⟩ ns).2[i]? = some o)
+    (ho' : (remapAll gen common consumed ⟨[], [], ctr⟩ ns).2[j]? = some o') :
+    o = o' ↔ n = n' :=
+  scene_injective gen hgen common consumed ctr ns hnames i j n n' o o' hi hj ho ho'
+
+/-- non-vacuity: three scenes that all use the node names 1 and 2 under the common frame 0 -/
+example : appendAll (fun k => 100 + k) [0] [] 0 [[0, 1, 1, 2], [0, 1, 1, 2], [0, 1, 1, 2]] =
+    [[0, 1, 1, 2], [0, 100, 100, 101], [0, 102, 102, 103]] := by decide
+
+end append
 
 end TV.C10
